@@ -19,6 +19,7 @@ package concurrent
 
 import (
 	"context"
+	"errors"
 	"sync"
 	"time"
 
@@ -40,6 +41,9 @@ const (
 	// sleeps in this interval when there are no available workers
 	sleepInterval = time.Millisecond * 5
 )
+
+// errPoolStopped is given to the panic handler of a task that is submitted to a stopped pool.
+var errPoolStopped = errors.New("worker pool is stopped")
 
 // Task represents a task function to be executed by a worker(goroutine).
 type Task struct {
@@ -127,14 +131,28 @@ func NewPool(name string, maxWorkers int, idleTimeout time.Duration, statistics 
 }
 
 func (p *workerPool) Submit(ctx context.Context, task *Task) {
-	if task.handle == nil || p.Stopped() {
+	if task.handle == nil {
+		return
+	}
+	if p.Stopped() {
+		p.reject(task, errPoolStopped)
 		return
 	}
 	select {
 	case <-ctx.Done():
-		p.statistics.TasksRejected.Incr()
-		return
+		p.reject(task, ctx.Err())
 	case p.tasks <- task:
+	}
+}
+
+// reject tells the submitter that its task will never be executed(submitter's context is done or
+// the pool is stopped), the same way as a panic of the task is reported. A query stage is tracked
+// as pending before its task is submitted: dropping the task silently leaves the pipeline pending
+// for ever(no response for the request, its execute context is never released).
+func (p *workerPool) reject(task *Task, err error) {
+	p.statistics.TasksRejected.Incr()
+	if task.panicHandle != nil {
+		task.panicHandle(err)
 	}
 }
 
